@@ -14,7 +14,7 @@ Python values: `null`, `true/false`, integers, strings, `{"t":[…]}` tuple, `{"
 {"op":"unpack","cmd":V}          -> {"recv":null|{…}}
 {"op":"outcome","flag":b,"res":n|null,"err":code}   (what the sync wrapper does after the wait)
      -> {"outcome":["value",r]|["raised",code]|["timeout"]}
-{"op":"sys","max":m,"progs":[[spec…]…],"labels":[L…],"skip":bool}
+{"op":"sys","max":m,"counter0":n,"progs":[[spec…]…],"labels":[L…],"skip":bool}   (counter0: start of commandsLocalCounter, default 0)
      spec = {"dec","dt","f","args","kw"} as in "plan"
      L = ["call",t] | ["timeout",t] | ["tick",hasLeader,isLeader,waitLeader,denied,idx,term] (0/1)
        | ["answer",j,code] | ["rput",k] | ["rput",k,node,req]
@@ -223,7 +223,10 @@ def handle (j : Json) : Except String Json := do
       let skip := match j.getObjVal? "skip" with
         | .ok (.bool b) => b
         | _ => false
-      let s0 := Sys.init m progs resultOfStd
+      let c0 := match j.getObjVal? "counter0" with
+        | .ok v => (v.getNat?).toOption.getD 0
+        | .error _ => 0
+      let s0 := Sys.init m progs resultOfStd c0
       let (s, oks) := runLabels skip s0 labels
       let threads := (List.range progs.length).map fun i =>
         Json.arr #[jn (s.thr i).next, .str (phaseStr (s.thr i).phase)]
